@@ -70,6 +70,14 @@ def r11_1(prog, out):
             continue
         bi = prog.info(b.id)
         det = [a for a in bi.awaits if prog.body_of_type(b, a.fut_ty) == detach_co]
+        if not det and b.id in cons:
+            # the handle method was spliced into this body: the detach is complete when the reply to the request built here has
+            # been received
+            built = [bb for (cb, bb, i, rv) in prog.constructions(R.topic_actor.request, detach_variant) if cb == b.id]
+            det = [a for a in bi.awaits if await_class(prog, bi, a) == "oneshot_recv" and any(bi.cfg.dominates(x, a.poll_bb) for x in built)]
+            rb = prog.facts.body(b.root) if b.root else b
+            if rb is not None and rb.impl_self == topic_ty:
+                det = []        # this IS the topic handle's method (still a unit; the flows that await it are judged)
         if not det:
             continue
         found += 1
@@ -188,6 +196,26 @@ def r11_3(prog, out):
                     out.violation(k2, si.loc(blk.idx), "a new topic actor starts with a non-empty subscription set (%r)" % o)
 
 
+def long_lived(prog, path):
+    """a service object (implements a gRPC service trait), or a value that is shared (Arc / Mutex / static around it anywhere)"""
+    for im in prog.facts.impls:
+        if im["self"] == path and "_server::" in im["trait"]:
+            return True
+    needles = ("std::sync::Arc<%s" % path, "Mutex<%s" % path, "RwLock<%s" % path, "OnceLock<%s" % path, "OnceCell<%s" % path)
+    for b in prog.facts.lib_bodies():
+        for l in b.locals:
+            ty = b.types[l["t"]]
+            if any(n in ty for n in needles):
+                return True
+    return False
+
+
+def reference_adts(prog):
+    """types named by the anchors: the long-lived state of the server"""
+    from anchors import TYPES
+    return set(TYPES.values())
+
+
 @rule("C11", "R11.4", "a deleted topic can die: only the topic manager holds strong references; subscriptions hold Weak<Topic>", floor=3)
 @rule("C10", "R11.4", "a deleted topic can die: only the topic manager holds strong references; subscriptions hold Weak<Topic>", floor=3)
 def r11_4(prog, out):
@@ -204,8 +232,16 @@ def r11_4(prog, out):
                 if strong in f["ty"]:
                     n += 1
                     key = "strong-ref:%s.%s" % (short_ty(path), f["name"])
+                    stored_in = [p2 for p2, a2 in prog.facts.adts.items() if p2 != path and not p2.startswith("crate::pubsub_proto")
+                                 and any(path in f2["ty"] for v2 in a2["variants"] for f2 in v2["fields"])]
+                    is_actor = any(a.ty == path for a in prog.actors)
                     if (path, f["name"]) in allowed:
                         out.holds(key, adt["span"], "the manager's map (and the transient listing page)")
+                    elif not stored_in and not is_actor and path not in (A.ty("Subscription"), A.ty("SubscriptionManager"), A.ty("TopicManager")) \
+                            and path not in reference_adts(prog) and not long_lived(prog, path):
+                        # a value type that no other structure stores: it lives as long as the local / task that holds it, like the
+                        # `Arc<Topic>` local it replaces
+                        out.holds(key, adt["span"], "%s is never stored in another structure: the reference lives only as long as the step that builds it" % short_ty(path), nontrivial=False)
                     else:
                         out.violation(key, adt["span"], "%s.%s keeps a strong Arc<Topic>: a deleted topic stays alive and its subscriptions never report it as deleted" % (short_ty(path), f["name"]))
     for k, f in (("Subscription", "topic"), ("SubscriptionActor", "topic")):
